@@ -127,6 +127,19 @@ CHECKS = {
              "(spec/Trace_Meta.tla): both have output => equal maps (order included); the predicted map is compared as drift.",
         design="6 (C14), 3.3", technique="TLA+ line-level model of both scanners + TLC exhaustive line sequences + trace validation of paired parses",
         note=DOC_NOTE),
+    "C16": dict(
+        text="spec/CookBuilder.tla is an implementation-shaped model of ConverterBuilder: AddFile (units by system, best lists "
+             "override, extend pushed, SI prefixes joined by precedence) and the four phases of finish (SI expansion, extend "
+             "groups with index removal/re-expansion/re-indexing, best lists, fractions), each able to reject; layers are "
+             "values in serde's own shape, interpreted by the model and deserialised by the real builder. TLC explores every "
+             "sequence of up to 3 (thorough 4) files from a 24-file pool, checks the C16 invariants on every Built state and "
+             "that every behaviour ends Built or Rejected, and prints the predicted converter. TLC then judges the real "
+             "outcome (spec/Trace_Builder.tla): never a panic; built/rejected as specified; every key found on a unit "
+             "resolves to it; no shared key; declared keys resolve; best lists of the own quantity in increasing size; "
+             "units with name/symbol/alias order and ratios as the precedence rules predict; default converter equals "
+             "the shipped file. Which error is reported is drift only.",
+        design="6 (C16), 3.9", technique="TLA+ builder model + TLC exhaustive layer sequences + replay into ConverterBuilder + trace validation",
+        note="Trusted: TLC, serde deserialisation of the printed layers. Ratios are small integers; the pool is curated, not random."),
     "C17": dict(
         text="For every finished document CookDoc also prints 13 variants built from marks the generator itself places "
              "(item separators, block starts, Cooklang line ends, fences): CRLF, trailing comments/blanks/tabs, block "
